@@ -59,7 +59,7 @@ type jLog struct {
 }
 
 type jCase struct {
-	Kind  string  `json:"kind"` // "def" | "decode" | "batch"
+	Kind  string  `json:"kind"` // "def" | "decode" | "batch" | "reuse"
 	Defs  []*jDef `json:"defs,omitempty"`
 	Def   *jDef   `json:"def,omitempty"`
 	Logs  []jLog  `json:"logs,omitempty"`
@@ -867,6 +867,59 @@ func runBatch(run *vh.Run, defs []*jDef, logs []jLog) {
 	run.AddCase(id, vh.CApp("CBatch", vh.CN(id), vh.CList(ds), vh.CList(obs)), c, hx(sum[:]), len(defs) >= 2)
 }
 
+// runReuse decodes the encodings of several valid definitions one after the other into ONE
+// EventTriggerDefinition value (what a caller looping over registrations with a hoisted decode
+// target does). Every decode must succeed, validate, equal its original and encode back to the
+// same bytes, whatever was decoded into the value before. The model side is a CBatch case:
+// decoding is a function of the bytes alone.
+func runReuse(run *vh.Run, defs []*jDef) {
+	id := run.NextID()
+	c := jCase{Kind: "reuse", Defs: defs}
+	encs := make([][]byte, len(defs))
+	for i, d := range defs {
+		r := d.build()
+		if r.Validate() != nil {
+			panic("runReuse: invalid definition")
+		}
+		encs[i] = append([]byte(nil), r.MarshalBytes()...)
+	}
+	var target shutterservice.EventTriggerDefinition
+	obs := make([]string, len(defs))
+	for i, d := range defs {
+		var err error
+		if p, msg := vh.Guard(func() { err = target.UnmarshalBytes(exact(encs[i])) }); p {
+			run.Violate(vh.Violation{Key: "C17:unmarshal-panic", What: "UnmarshalBytes into a previously used value panicked: " + msg, Case: c})
+			return
+		}
+		cls := classify(run, err)
+		obs[i] = cls
+		if cls != "ok" {
+			run.Violate(vh.Violation{Key: "C17:roundtrip:decode-into-used-value-fails", What: fmt.Sprintf("the encoding of valid definition %d does not decode into a value that was decoded into before (%s: %v)", i, cls, err), Case: c, Observed: defOf(&target), Expected: d})
+			continue
+		}
+		got := defOf(&target)
+		obs[i] = vh.CApp("UOk", coqDef(got))
+		if !sameDef(got, d) {
+			run.Violate(vh.Violation{Key: "C17:roundtrip:decode-into-used-value-differs", What: fmt.Sprintf("definition %d decoded into a previously used value differs from its original", i), Case: c, Observed: got, Expected: d})
+		}
+		if target.Validate() != nil {
+			run.Violate(vh.Violation{Key: "C17:decoded-definition-invalid", What: fmt.Sprintf("definition %d decoded into a previously used value does not validate", i), Case: c, Observed: got})
+		}
+		var re []byte
+		if p, _ := vh.Guard(func() { re = target.MarshalBytes() }); p || !bytes.Equal(re, encs[i]) {
+			run.Violate(vh.Violation{Key: "C17:roundtrip:decode-into-used-value-differs", What: fmt.Sprintf("definition %d decoded into a previously used value encodes to different bytes", i), Case: c, Observed: hx(re), Expected: hx(encs[i])})
+		}
+	}
+	run.Dist[fmt.Sprintf("reuse:len=%d", len(defs))]++
+	ds := make([]string, len(defs))
+	for i, d := range defs {
+		ds[i] = coqDef(d)
+	}
+	key, _ := json.Marshal(c)
+	sum := sha256.Sum256(key)
+	run.AddCase(id, vh.CApp("CBatch", vh.CN(id), vh.CList(ds), vh.CList(obs)), c, hx(sum[:]), len(defs) >= 2)
+}
+
 // genValidDef draws definitions until one validates.
 func genValidDef(r *vh.RNG) *jDef {
 	for {
@@ -939,6 +992,8 @@ func runCase(run *vh.Run, c jCase) {
 		runDecode(run, unhx(c.Bytes), false)
 	case "batch":
 		runBatch(run, c.Defs, c.Logs)
+	case "reuse":
+		runReuse(run, c.Defs)
 	default:
 		panic("unknown case kind " + c.Kind)
 	}
@@ -1648,7 +1703,7 @@ func main() {
 	run := vh.Start("Verif.Corr.C17", 120)
 	defer run.Finish()
 	run.SetPreamble("From Verif Require Import Lib.Rlp Model.TriggerDef.\nOpen Scope list_scope.\n" + initNamed())
-	run.Rule = "definition cases: a generated definition (all operators, topic/static/dynamic references, 0..4 and occasionally up to 12 predicates, boundary integers, one in seven deliberately invalid) with logs aimed at it (values equal/adjacent to the arguments, well-formed ABI tails, then truncations and hostile pointers/lengths up to 2^64-1; forced resource probes: static and dynamic references 2^10..2^32-5 words into the data against logs with 0/32/40 data bytes, bytes allocated per Match (runtime TotalAlloc delta, minimum of up to 5 repetitions) against (predicates+1)*(8*len(data)+1024)+4096; definitions referring more than 2^22 words into the data are matched in a child process under RLIMIT_AS 3 GiB and a 60 s watchdog, a dead child is a violation); non-trivial = valid definition with at least one predicate, at least one log that matched and at least one rejected by a predicate. batch cases: 2..8 valid definitions (mixed and equal encoded lengths, neighbours differing in one argument byte / the contract / one integer) all encoded before any is decoded, every returned slice compared with a copy taken right after its call, each decoded and compared with its original, the first decoded definition matched against logs, then one goroutine per definition marshalling concurrently (oracle only); decoder cases: real encodings, 22 structural/canonical-form mutations written with an independent RLP writer, bit flips, truncations, trailing bytes, wrong versions, random bytes; non-trivial = got past the version byte into the RLP decoder with more than 24 bytes, or decoded. distinct by canonical JSON of the case"
+	run.Rule = "definition cases: a generated definition (all operators, topic/static/dynamic references, 0..4 and occasionally up to 12 predicates, boundary integers, one in seven deliberately invalid) with logs aimed at it (values equal/adjacent to the arguments, well-formed ABI tails, then truncations and hostile pointers/lengths up to 2^64-1; forced resource probes: static and dynamic references 2^10..2^32-5 words into the data against logs with 0/32/40 data bytes, bytes allocated per Match (runtime TotalAlloc delta, minimum of up to 5 repetitions) against (predicates+1)*(8*len(data)+1024)+4096; definitions referring more than 2^22 words into the data are matched in a child process under RLIMIT_AS 3 GiB and a 60 s watchdog, a dead child is a violation); non-trivial = valid definition with at least one predicate, at least one log that matched and at least one rejected by a predicate. batch cases: 2..8 valid definitions (mixed and equal encoded lengths, neighbours differing in one argument byte / the contract / one integer) all encoded before any is decoded, every returned slice compared with a copy taken right after its call, each decoded and compared with its original, the first decoded definition matched against logs, then one goroutine per definition marshalling concurrently (oracle only); reuse cases: the encodings of 2..8 valid definitions decoded one after the other into ONE value (all 36 ordered pairs of a six-definition family, chains, random sequences), each required to succeed, validate, equal its original and re-encode to the same bytes; decoder cases: real encodings, 22 structural/canonical-form mutations written with an independent RLP writer, bit flips, truncations, trailing bytes, wrong versions, random bytes; non-trivial = got past the version byte into the RLP decoder with more than 24 bytes, or decoded. distinct by canonical JSON of the case"
 	if run.Replay != "" {
 		var c jCase
 		if err := run.LoadReplay(&c); err != nil {
@@ -1702,6 +1757,33 @@ func main() {
 		runBatch(run, []*jDef{u(1000), u(1001)}, lg)                                   // same length, threshold differs
 		runBatch(run, []*jDef{tEq(addrA, h), {Contract: addrA, Preds: []jPred{}}}, lg) // long then short
 		runBatch(run, []*jDef{{Contract: addrB, Preds: []jPred{}}, tEq(addrA, h), u(5), tEq(addrB, h2), u(1 << 40), {Contract: addrA, Preds: []jPred{}}, u(1000), tEq(addrA, h2)}, lg)
+	}
+	// decode into a value that was decoded into before: every ordered pair (and a definition after
+	// itself) of a small family, two chains, then random sequences
+	{
+		h := unhx(hashes[0])
+		pT := jPred{Off: 1, Op: 5, Ints: []*string{}, Bytes: []string{hx(h)}}
+		pU := jPred{Off: 4, Op: 3, Ints: []*string{sp(big.NewInt(1000))}, Bytes: []string{}}
+		pD := jPred{Dyn: true, Off: 5, Op: 5, Ints: []*string{}, Bytes: []string{"68656c6c6f"}}
+		pZ := jPred{Off: 2, Op: 2, Ints: []*string{sp(big.NewInt(0))}, Bytes: []string{}}
+		fam := []*jDef{
+			{Contract: addrA, Preds: []jPred{}},
+			{Contract: addrA, Preds: []jPred{pT}},
+			{Contract: addrB, Preds: []jPred{pU}},
+			{Contract: addrA, Preds: []jPred{pD}},
+			{Contract: addrA, Preds: []jPred{pU, pT}},
+			{Contract: addrB, Preds: []jPred{pT, pZ, pD}},
+		}
+		for _, a := range fam {
+			for _, b := range fam {
+				runReuse(run, []*jDef{a, b})
+			}
+		}
+		runReuse(run, fam)
+		runReuse(run, []*jDef{fam[5], fam[4], fam[3], fam[2], fam[1], fam[0], fam[1]})
+	}
+	for i, n := 0, run.Scale(300, 3000); i < n; i++ {
+		runReuse(run, genBatch(run.RNG))
 	}
 	for i, n := 0, run.Scale(300, 3000); i < n; i++ {
 		ds := genBatch(run.RNG)
